@@ -2,9 +2,17 @@
    PARTIAL: the machine-checked part is the string codec shared by the CSV and AIF parsers (cast_string / _to_string,
    Codec/CastString.v, tied to the code by a 20 000-string differential run per check) and the isotherm dictionary the three
    writers start from (to_dict, Codec/JsonDoc.v, C06). The document containers (pandas to_csv/read_csv, xlwt/xlrd, gemmi) are
-   oracles; the document-level round trips are validated on the implementation by the property oracle of ./check C07. *)
-From Coq Require Import ZArith NArith String List Bool.
-From PG Require Import Lib.Py Codec.CastString.
+   oracles; the document-level round trips are validated on the implementation by the property oracle of ./check C07.
+   Round 2: the CSV DOCUMENT is modelled (Codec/CsvDoc.v: writer lines, `_material_` flattening, markers, table with 8-decimal
+   texts and 'ads'/'des' marks, model lines; reader with rstrip / split / ParsingError / cast_string / regrouping / table rows),
+   tied to csv.py by a per-run comparison inside Coq (model document vs isotherm_to_csv line by line, model import vs the
+   re-imported object). csv_roundtrip_*_partial: PARTIAL because (i) they stop at the constructor call (keyword dictionary, column
+   names, rows; the constructors are the model of C06), (ii) the separator is one character, (iii) repr / float() / _from_list /
+   pandas' cell reader enter through the value-domain premise item_ok / the result row_back (instances are proved for None,
+   booleans, every non-negative int, plain text, and floats under the oracles' contract), (iv) pandas quoting is outside the
+   modelled fragment. *)
+From Coq Require Import QArith ZArith NArith String List Bool Ascii.
+From PG Require Import Lib.Py Codec.PyVal Codec.JsonDoc Codec.CastString Codec.CsvDoc.
 Import ListNotations.
 Open Scope string_scope.
 
@@ -50,3 +58,115 @@ Example float_grammar :
   = [false; false; false; false; false; false; false; false; false; false; false; false; false].
 Proof. exact float_grammar_examples. Qed.
 Print Assumptions float_grammar.
+
+(* ================================================================ the CSV document (Codec/CsvDoc.v) *)
+(* induction over the metadata list: the lines the writer produces for a dictionary whose keys are not blank-led / marker-spelled /
+   separator-carrying and whose values are in the domain cast_string (_to_string v) = v are read back as that dictionary *)
+Theorem csv_metadata_roundtrip_partial :
+  forall (sep : ascii) (repr_float : Q -> string) (float_of : string -> pyval) (from_list : string -> res pyval),
+  is_space sep = false -> has_char sep "data" = false -> has_char sep "model" = false ->
+  forall (d : list (string * pyval)) (ls rest : list string) (acc : dict),
+  Forall (item_ok sep repr_float float_of from_list) d -> meta_lines sep repr_float d = Ok ls ->
+  read_meta sep float_of from_list (ls ++ rest)%list acc = read_meta sep float_of from_list rest (dict_update acc d).
+Proof. exact read_meta_lines. Qed.
+Print Assumptions csv_metadata_roundtrip_partial.
+(* a value whose text contains the separator (after any number of good lines) is REFUSED with ParsingError, never changed *)
+Theorem csv_refuses_separator_in_value :
+  forall (sep : ascii) (repr_float : Q -> string) (float_of : string -> pyval) (from_list : string -> res pyval)
+         (ads_canon : string -> string) (labels_ok : dict -> bool),
+  is_space sep = false -> has_char sep "data" = false -> has_char sep "model" = false ->
+  forall (d1 : list (string * pyval)) (k : string) (v : pyval) (d2 : list (string * pyval)) (t : string) (ls rest : list string),
+  Forall (item_ok sep repr_float float_of from_list) d1 -> key_ok sep k = true ->
+  to_string repr_float v = Ok t -> has_char sep t = true ->
+  meta_lines sep repr_float (d1 ++ (k, v) :: d2)%list = Ok ls ->
+  csv_import sep float_of from_list ads_canon labels_ok (ls ++ rest)%list = Err ParsingError.
+Proof. exact refuses_separator_in_value. Qed.
+Print Assumptions csv_refuses_separator_in_value.
+(* induction over the row list: every written row is read back, in order, with its adsorption / desorption mark and with every
+   cell text (the value rounded to 8 decimals, see cell_text) passed through the cell reader *)
+Theorem csv_rows_roundtrip_partial :
+  forall (sep : ascii) (float_of : string -> pyval), has_char sep "ads" = false -> has_char sep "des" = false ->
+  forall (a b : string) (rest : list string) (rows : list row) (ls : list string),
+  Forall (row_wf sep (a :: b :: rest)) rows -> mapM (row_line sep) rows = Ok ls ->
+  read_rows sep float_of (a :: b :: "branch" :: rest) (ls ++ [""])%list = mapM (row_back sep float_of) rows.
+Proof. exact read_rows_lines. Qed.
+Print Assumptions csv_rows_roundtrip_partial.
+(* the reader applied to the writer's document, up to the constructor call: metadata-only and point isotherms *)
+Theorem csv_roundtrip_base_partial :
+  forall (sep : ascii) (repr_float : Q -> string) (float_of : string -> pyval) (from_list : string -> res pyval),
+  is_space sep = false -> has_char sep "data" = false -> has_char sep "model" = false ->
+  forall (d : list (string * pyval)) (ml : list string),
+  Forall (item_ok sep repr_float float_of from_list) d -> meta_lines sep repr_float d = Ok ml ->
+  csv_parse sep float_of from_list (ml ++ [""])%list =
+  bind (pop_version (dict_update [] d)) (fun raw => bind (regroup raw) (fun raw0 => Ok (raw0, SBase))).
+Proof. exact csv_parse_base. Qed.
+Print Assumptions csv_roundtrip_base_partial.
+Theorem csv_roundtrip_partial :
+  forall (sep : ascii) (repr_float : Q -> string) (float_of : string -> pyval) (from_list : string -> res pyval),
+  is_space sep = false -> has_char sep "data" = false -> has_char sep "model" = false ->
+  has_char sep "ads" = false -> has_char sep "des" = false -> has_char sep "branch" = false ->
+  forall (d : list (string * pyval)) (ml : list string) (a b : string) (rest : list string) (rows : list row) (tl : list string),
+  Forall (item_ok sep repr_float float_of from_list) d -> meta_lines sep repr_float d = Ok ml ->
+  Forall (row_wf sep (a :: b :: rest)) rows -> forallb (plain_field sep) (a :: b :: rest) = true ->
+  table_lines sep rows = Ok tl ->
+  csv_parse sep float_of from_list (ml ++ data_marker :: tl ++ [""])%list =
+  bind (pop_version (dict_update [] d)) (fun raw => bind (regroup raw) (fun raw0 =>
+  bind (mapM (row_back sep float_of) rows) (fun rows' => Ok (raw0, SPoint a b rows')))).
+Proof. exact csv_parse_point. Qed.
+Print Assumptions csv_roundtrip_partial.
+(* the value domain contains every non-negative int (induction over numerals, from cast_roundtrip_int), plain text, and floats
+   under the contract of repr / float() *)
+Theorem csv_value_domain_int : forall (repr_float : Q -> string) (float_of : string -> pyval) (from_list : string -> res pyval) (n : N),
+  to_string repr_float (VInt (Z.of_N n)) = Ok (print_nat n) /\ cast float_of from_list (print_nat n) = Ok (VInt (Z.of_N n)).
+Proof. exact castable_nat. Qed.
+Print Assumptions csv_value_domain_int.
+Theorem csv_value_domain_text : forall (repr_float : Q -> string) (float_of : string -> pyval) (from_list : string -> res pyval) (s : string),
+  CastString.is_none s = false -> is_bool s = false -> isnumeric s = false -> is_float s = false -> is_list s = false ->
+  to_string repr_float (VStr s) = Ok s /\ cast float_of from_list s = Ok (VStr s).
+Proof. exact castable_text. Qed.
+Print Assumptions csv_value_domain_text.
+Theorem csv_value_domain_float_partial : forall (repr_float : Q -> string) (float_of : string -> pyval) (from_list : string -> res pyval) (q : Q),
+  is_float (repr_float q) = true -> isnumeric (repr_float q) = false -> CastString.is_none (repr_float q) = false ->
+  is_bool (repr_float q) = false -> float_of (repr_float q) = VFloat q ->
+  to_string repr_float (VFloat q) = Ok (repr_float q) /\ cast float_of from_list (repr_float q) = Ok (VFloat q).
+Proof. exact castable_float. Qed.
+Print Assumptions csv_value_domain_float_partial.
+Theorem csv_cell_int : forall (sep : ascii) (float_of : string -> pyval) (n : N),
+  exists t : string, cell_text sep (VInt (Z.of_N n)) = Ok t /\ cell_of float_of t = VInt (Z.of_N n).
+Proof. exact cell_nat. Qed.
+Print Assumptions csv_cell_int.
+(* the hypotheses are satisfiable: the default separator, a metadata list in the domain, its full round trip, a written table *)
+Example csv_separator_comma : is_space comma = false /\ has_char comma "data" = false /\ has_char comma "model" = false /\
+                 has_char comma "ads" = false /\ has_char comma "des" = false /\ has_char comma "branch" = false.
+Proof. exact comma_ok. Qed.
+Example csv_domain_inhabited : Forall (item_ok comma w_repr w_float_of w_from_list) w_csv_meta.
+Proof. exact w_csv_meta_ok. Qed.
+Example csv_witness_roundtrip :
+  exists ml, meta_lines comma w_repr w_csv_meta = Ok ml /\
+             csv_parse comma w_float_of w_from_list (ml ++ [""])%list = Ok (w_csv_meta, SBase).
+Proof. exact w_csv_meta_roundtrip. Qed.
+Example csv_witness_table : table_lines comma w_rows = Ok ["pressure,loading,branch,flag"; "0.5,3,ads,True"; "0.00123457,4,des,False"].
+Proof. exact w_table. Qed.
+(* REFUTED (silent changes, each replayed on the implementation by ./check C07): negative int -> float(); trailing blank stripped;
+   a key spelled like a section marker ends the metadata; a material property key containing "_material_" is mangled (KeyError);
+   the fit error of a model comes back as text *)
+Theorem csv_negative_int_refuted : to_string w_repr (VInt (-5)) = Ok "-5" /\ cast w_float_of w_from_list "-5" = Ok (w_float_of "-5").
+Proof. exact w_negative_int. Qed.
+Print Assumptions csv_negative_int_refuted.
+Theorem csv_trailing_blank_refuted :
+  read_meta comma w_float_of w_from_list ["comment,trail "; ""] [] = Ok ([("comment", VStr "trail")], "", []).
+Proof. exact w_trailing_blank. Qed.
+Print Assumptions csv_trailing_blank_refuted.
+Theorem csv_marker_key_refuted :
+  read_meta comma w_float_of w_from_list ["k1,2"; "datafile,x1"; "k2,3"] [] = Ok ([("k1", VInt 2)], "datafile,x1", ["k2,3"]).
+Proof. exact w_marker_key. Qed.
+Print Assumptions csv_marker_key_refuted.
+Theorem csv_material_key_refuted : regroup [("material", VStr "m"); ("_material_raw_material_id", VInt 7)] = Err KeyError.
+Proof. exact w_material_key. Qed.
+Print Assumptions csv_material_key_refuted.
+Theorem csv_model_rmse_text_refuted :
+  read_model comma w_float_of w_from_list ["name,Henry"; "rmse,0.5"; "pressure range,(0 1)"; "loading range,(0 2)"; "K,2.0"; ""]
+  = Ok (SModel (VDict [("name", VStr "Henry"); ("rmse", VStr "0.5"); ("pressure_range", VStr "list:(0 1)");
+                       ("loading_range", VStr "list:(0 2)"); ("parameters", VDict [("K", VStr "float:2.0")])])).
+Proof. exact w_rmse_text. Qed.
+Print Assumptions csv_model_rmse_text_refuted.
